@@ -231,7 +231,9 @@ type traceOp struct {
 	Result string `json:"result"`
 }
 
-var reOpen = regexp.MustCompile(`^\d+\s+(openat|open|creat)\((?:AT_FDCWD|\d+)?,?\s*"([^"]*)"(?:,\s*([A-Z_|0-9]+))?.*\)\s+=\s+(-?\d+.*)$`)
+// with `strace -y` a directory fd is printed with its path: AT_FDCWD</cwd/of/the/process>, 5</tmp/go-build1>
+var reOpen = regexp.MustCompile(`^\d+\s+(openat|open|creat)\((?:(?:AT_FDCWD|\d+)(?:<([^>]*)>)?,\s*)?"([^"]*)"(?:,\s*([A-Z_|0-9]+))?.*\)\s+=\s+(-?\d+.*)$`)
+var reAtPath = regexp.MustCompile(`(?:(?:AT_FDCWD|\d+)(?:<([^>]*)>)?,\s*)?"([^"]*)"`)
 var reOther = regexp.MustCompile(`^\d+\s+(rename|renameat|renameat2|unlink|unlinkat|truncate|mkdir|mkdirat|link|linkat|symlink|symlinkat|rmdir|chmod|fchmodat)\((.*)\)\s+=\s+(-?\d+.*)$`)
 var reQuoted = regexp.MustCompile(`"([^"]*)"`)
 var rePid = regexp.MustCompile(`^(\d+)\s`)
@@ -244,9 +246,15 @@ func parseTrace(traceFile, dir string) []traceOp {
 	}
 	defer f.Close()
 	var ops []traceOp
-	rel := func(p string) (string, bool) {
+	// base: the directory a relative path is relative to, when strace could tell (the path of
+	// the directory fd, or of the calling process's cwd); the project directory otherwise
+	rel := func(base, p string) (string, bool) {
 		if !filepath.IsAbs(p) {
-			p = filepath.Join(dir, p)
+			if base != "" {
+				p = filepath.Join(base, p)
+			} else {
+				p = filepath.Join(dir, p)
+			}
 		}
 		p = filepath.Clean(p)
 		if p == dir {
@@ -278,7 +286,7 @@ func parseTrace(traceFile, dir string) []traceOp {
 			}
 		}
 		if m := reOpen.FindStringSubmatch(line); m != nil {
-			flags := m[3]
+			flags := m[4]
 			if m[1] == "creat" {
 				flags = "O_CREAT|O_WRONLY|O_TRUNC"
 			}
@@ -286,14 +294,14 @@ func parseTrace(traceFile, dir string) []traceOp {
 				strings.Contains(flags, "O_TRUNC") || strings.Contains(flags, "O_APPEND")) {
 				continue
 			}
-			if r, ok := rel(m[2]); ok {
-				ops = append(ops, traceOp{Call: "open-write", Path: r, Flags: flags, Result: m[4]})
+			if r, ok := rel(m[2], m[3]); ok {
+				ops = append(ops, traceOp{Call: "open-write", Path: r, Flags: flags, Result: m[5]})
 			}
 			continue
 		}
 		if m := reOther.FindStringSubmatch(line); m != nil {
-			for _, q := range reQuoted.FindAllStringSubmatch(m[2], -1) {
-				if r, ok := rel(q[1]); ok {
+			for _, q := range reAtPath.FindAllStringSubmatch(m[2], -1) {
+				if r, ok := rel(q[1], q[2]); ok {
 					ops = append(ops, traceOp{Call: m[1], Path: r, Result: m[3]})
 					break
 				}
@@ -427,7 +435,7 @@ func (r *runner) runCase(c *Case) []*StepObs {
 		if p.cfgName == "" && st.CfgArg != "" {
 			args = []string{"no-such-config.yaml"}
 		}
-		full := append([]string{"-f", "-o", traceFile, "-e", "trace=openat,open,creat,rename,renameat,renameat2,unlink,unlinkat,truncate,mkdir,mkdirat,link,linkat,symlink,symlinkat,rmdir", "--", r.bin}, args...)
+		full := append([]string{"-f", "-y", "-o", traceFile, "-e", "trace=openat,open,creat,rename,renameat,renameat2,unlink,unlinkat,truncate,mkdir,mkdirat,link,linkat,symlink,symlinkat,rmdir", "--", r.bin}, args...)
 		cmd := exec.Command("strace", full...)
 		cmd.Dir = dir
 		cmd.Env = append(os.Environ(), "GOFLAGS=-mod=mod", "GOPROXY=off", "GOSUMDB=off", "GOTOOLCHAIN=local")
